@@ -126,6 +126,17 @@ def rule_seeds(ctx, R="C20.2"):
         oke, how = sgrep.each_calls(f["body"], "self.iter_mut()", "propagate_" + kind, None, allow_guard=lambda c: c[0] == "if" and not c[2] and c[1]["k"] == "Path")
         ok = oke and not [n for n in walk(f["body"]) if n["k"] in ("Break", "Return", "Continue")]
         ctx.check(R, "BasicBlock::propagate_%s/every-statement" % kind, ok, t[:200], site(BB, f))
+        # one change per pass: a statement is propagated only while no earlier statement of the block changed in this
+        # pass (`result = result || s.propagate(env)`, `if !result {..}`, or a short-circuiting `any`); the pessimistic
+        # reading of intermediate states rests on earlier statements being stable first
+        cs_ = [c_ for c_ in method_calls(f["body"], "propagate_" + kind)]
+        sc_ok = False
+        if len(cs_) == 1:
+            conds_ = conditions_to(f["body"], cs_[0]) or []
+            in_any = any(c_[0] == "closure" for c_ in conds_) and any(m_["k"] == "MethodCall" and m_["method"] == "any" and any(x is cs_[0] for x in walk(m_)) for m_ in walk(f["body"]))
+            guarded = any(c_[0] == "if" and not c_[2] and strip(c_[1])["k"] == "Path" for c_ in conds_)
+            sc_ok = in_any or guarded
+        ctx.check(R, "BasicBlock::propagate_%s/one-change-per-pass" % kind, sc_ok, "the statements' propagate_%s must be short-circuited on the block's change flag: %s" % (kind, t[:160]), site(BB, f))
 
 
 def run(ctx):
